@@ -119,6 +119,9 @@ func (c *fnCtx) function() {
 	fn := c.fn
 	fd := fn.decl
 	_, recvType, targs := recvInfo(fd)
+	if fn.ctor != nil {
+		recvType, targs = fn.ctor.tname, fn.ctor.targs
+	}
 	var fieldNames []string
 	fieldTypes := map[string]ast.Expr{}
 	if recvType != "" {
@@ -148,6 +151,10 @@ func (c *fnCtx) function() {
 	if rest, ok := c.mutexPrologue(fd, fieldTypes); ok {
 		c.body = &ast.BlockStmt{Lbrace: fd.Body.Lbrace, List: rest, Rbrace: fd.Body.Rbrace}
 	}
+	if fn.ctor != nil {
+		c.body = &ast.BlockStmt{Lbrace: fd.Body.Lbrace, List: fn.ctor.rest, Rbrace: fd.Body.Rbrace}
+	}
+	fn.retRecv = fn.ctor != nil || c.returnsRecv(fd, recvType)
 	for _, f := range fieldNames {
 		if o := c.objectField(recvType, f, fieldTypes[f]); o != nil {
 			c.objs[f] = o
@@ -212,6 +219,9 @@ func (c *fnCtx) function() {
 			for _, l := range v.Lhs {
 				if f := rootField(l); f != "" {
 					sc.fieldsMut[f] = true
+					if sel, ok := l.(*ast.SelectorExpr); ok && isRecvIdent(sel.X) {
+						fn.reshapes[f] = true
+					}
 				}
 			}
 			if oracleAppend(v) != nil {
@@ -248,6 +258,19 @@ func (c *fnCtx) function() {
 					sc.fieldsMut[f] = true
 				}
 			}
+			if isBuiltin(v, "copy", 2) {
+				if f := rootField(v.Args[0]); f != "" {
+					sc.fieldsMut[f] = true
+				}
+			}
+			if isBuiltin(v, "cap", 1) {
+				// cap of a slice field: its spare capacity is tracked (companion <field>_spare)
+				if sel, ok := v.Args[0].(*ast.SelectorExpr); ok && isRecvIdent(sel.X) {
+					if _, isArr := fieldTypes[sel.Sel.Name].(*ast.ArrayType); isArr {
+						fn.fatFields[sel.Sel.Name] = true
+					}
+				}
+			}
 			if id, ok := v.Fun.(*ast.Ident); ok && id.Name == "make" && id.Obj == nil && len(v.Args) >= 1 {
 				mapKeyExtra(v.Args[0])
 			}
@@ -270,6 +293,12 @@ func (c *fnCtx) function() {
 				}
 				for _, f := range cal.mutFields {
 					sc.fieldsMut[f] = true
+				}
+				for f := range cal.fatFields {
+					fn.fatFields[f] = true
+				}
+				for f := range cal.reshapes {
+					fn.reshapes[f] = true
 				}
 				for _, l := range cal.logs {
 					sc.addLog(l)
@@ -306,7 +335,12 @@ func (c *fnCtx) function() {
 
 	// ---- variables of the signature
 	for _, f := range fieldNames {
-		if !(sc.fieldsUsed[f] || sc.fieldsMut[f]) || fieldFuncNoRes[f] {
+		if fn.ctor != nil {
+			// a constructor: every field of the new object is a local and is returned
+			if fieldFuncNoRes[f] || isMutexType(fieldTypes[f]) {
+				continue
+			}
+		} else if !(sc.fieldsUsed[f] || sc.fieldsMut[f]) || fieldFuncNoRes[f] {
 			continue
 		}
 		var ft *fnType
@@ -317,6 +351,13 @@ func (c *fnCtx) function() {
 		}
 		v := c.newVar(fn.recvVar+"_"+f, ft, "field")
 		c.fields[f] = v
+		if fn.fatFields[f] {
+			c.fat[v] = c.newVar(fn.recvVar+"_"+f+"_spare", ft, "field")
+		}
+		if fn.ctor != nil {
+			fn.mutFields = append(fn.mutFields, f)
+			continue
+		}
 		fn.fields = append(fn.fields, f)
 		if sc.fieldsMut[f] {
 			fn.mutFields = append(fn.mutFields, f)
@@ -393,7 +434,7 @@ func (c *fnCtx) function() {
 		fn.logs = append(fn.logs, l)
 	}
 	// results
-	if fd.Type.Results != nil {
+	if fd.Type.Results != nil && !fn.retRecv {
 		slot := 0
 		for _, f := range fd.Type.Results.List {
 			t := c.goType(f.Type)
@@ -441,9 +482,13 @@ func (c *fnCtx) function() {
 			c.lostAt(fd, "parameter %s of type %s (aliasing)", p.goName, p.v.typ.k)
 		}
 	}
+	var ctorPre []fnBind
+	if fn.ctor != nil {
+		ctorPre = c.ctorInit(fn.ctor, fieldNames, fieldTypes, fieldFuncNoRes)
+	}
 	inner := c.stmts(c.body.List, end)
 	// named results and logs start at their zero values
-	body = inner
+	body = wrap(ctorPre, inner)
 	for i := len(fn.logs) - 1; i >= 0; i-- {
 		body = tLet{c.logs[fn.logs[i]].name + " : " + varType(c.logs[fn.logs[i]]), "[]", body}
 	}
@@ -599,6 +644,12 @@ func (c *fnCtx) sliceUsage(fd *ast.FuncDecl) map[string]*sliceUse {
 					if p := paramOf(v.Args[0]); p != "" {
 						use[p].view = true
 					}
+				case "copy":
+					if len(v.Args) == 2 {
+						if p := paramOf(v.Args[0]); p != "" {
+							use[p].stored, use[p].elems = true, true
+						}
+					}
 				}
 			}
 			if cal := c.g.calleeOf(c.fn, v); cal != nil {
@@ -739,6 +790,9 @@ func (c *fnCtx) sigVars() []*fnVar {
 	var vs []*fnVar
 	for _, f := range c.fn.fields {
 		vs = append(vs, c.fields[f])
+		if sp := c.fat[c.fields[f]]; sp != nil {
+			vs = append(vs, sp)
+		}
 	}
 	for _, p := range c.fn.params {
 		if p.v == nil {
@@ -765,6 +819,9 @@ func (c *fnCtx) retVars() []*fnVar {
 	var vs []*fnVar
 	for _, f := range c.fn.mutFields {
 		vs = append(vs, c.fields[f])
+		if sp := c.fat[c.fields[f]]; sp != nil {
+			vs = append(vs, sp)
+		}
 	}
 	for _, p := range c.fn.params {
 		if p.v != nil && p.mutated {
@@ -877,7 +934,7 @@ func (c *fnCtx) effects(nodes ...ast.Node) effSet {
 			if v.view != nil {
 				es.r[v.view] = true
 			}
-			if sp := c.fat[v]; sp != nil {
+			if sp := c.fat[v]; sp != nil && v.role != "field" {
 				es.r[sp] = true
 			}
 		}
@@ -896,6 +953,10 @@ func (c *fnCtx) effects(nodes ...ast.Node) effSet {
 			case *ast.AssignStmt:
 				for _, l := range v.Lhs {
 					wr(c.rootVar(l))
+					// a field with a tracked capacity assigned as a whole: its spare part changes too
+					if x := c.plainVar(l); x != nil && x.role == "field" && c.fat[x] != nil {
+						es.r[c.fat[x]], es.w[c.fat[x]] = true, true
+					}
 				}
 			case *ast.IncDecStmt:
 				wr(c.rootVar(v.X))
@@ -953,6 +1014,17 @@ func (c *fnCtx) effects(nodes ...ast.Node) effSet {
 						rd(c.mapEqbVar(x.typ))
 					}
 				}
+				if isBuiltin(v, "copy", 2) {
+					if x := c.rootVar(v.Args[0]); x != nil {
+						wr(x)
+						rd(x)
+					}
+				}
+				if isBuiltin(v, "cap", 1) {
+					if x := c.plainVar(v.Args[0]); x != nil && x.role == "field" && c.fat[x] != nil {
+						es.r[c.fat[x]] = true
+					}
+				}
 				if fv, m := c.objCallOf(v); fv != nil {
 					rd(c.extras["obj:"+c.objOf(fv).field+"."+m])
 					rd(fv)
@@ -971,6 +1043,11 @@ func (c *fnCtx) effects(nodes ...ast.Node) effSet {
 					}
 					for _, f := range cal.mutFields {
 						wr(c.fields[f])
+					}
+					for f := range cal.fatFields {
+						if x := c.fields[f]; x != nil && c.fat[x] != nil {
+							es.r[c.fat[x]], es.w[c.fat[x]] = true, true
+						}
 					}
 					for _, l := range cal.logs {
 						wr(c.logs[l])
